@@ -561,6 +561,7 @@ fn record_case(r: &mut Rec, case: &str, srcs: &[SrcFont], ch: &Choices, rng: &mu
             }
             Err(x) => {
                 r.ev(case, "Decode", a, json!({"ok": false, "err": x}));
+                bump(tally, "decode_failures", 1);
                 continue;
             }
         };
@@ -679,6 +680,7 @@ fn record_fixture(r: &mut Rec, path: &str, tally: &mut BTreeMap<String, u64>) {
             }
             Err(x) => {
                 r.ev(&case, "Decode", json!({"font": k, "fixture": name, "huge": 0}), json!({"ok": false, "err": x}));
+                bump(tally, "decode_failures", 1);
                 continue;
             }
         };
